@@ -10,15 +10,18 @@ from symx.core import AND, OR, NOT, IMPLIES, IFF, ITE, Sym, is_sym
 from symx.engine import harness
 
 from armi.nuclearDataIO import xsLibraries, xsNuclides, xsCollections
+from armi.utils.properties import ImmutablePropertyError
 
 from harness.C10_macro import arr, bool_same
 
 STUBS = ["libraries are built in memory (real IsotxsLibrary, XSNuclide, XSCollection, NuclideMetadata objects; vectors "
          "are numpy OBJECT arrays of symbolic reals, matrices are concrete scipy csr matrices); nothing is read from "
          "files.  The merge only moves data: the symbolic content is the merge order (solver-enumerated), the group "
-         "counts in the file metadata (equal or not decided by the solver) and the data values as tokens"]
+         "counts in the file metadata and every group BOUNDARY of the neutron / gamma energy structure of each library "
+         "(equal or not decided by the solver) and the data values as tokens"]
 
-NGN, NGG = 2, 3            # neutron / gamma groups
+NGN, NGG = 2, 3            # neutron / gamma groups (default; a scenario may give a library other counts)
+VELOCITY = [2.0e9, 1.0e7, 3.0e5]   # neutron velocities of every ISOTXS-like source ("just use the first one": not compared)
 
 # which library-level energy structures and which nuclide data each kind of file carries
 KINDS = ("isotxs", "gamiso", "pmatrx")
@@ -32,70 +35,80 @@ def sp(shape, seed):
     return sparse.csr_matrix(a)
 
 
+def fill_nuclide(ctx, n, kind, t, label, k, ngn, ngg, items):
+    """give nuclide n the data one kind of file carries (tag t names the inputs); records them in items"""
+    nm = getattr(n, kind + "Metadata")
+    nm["nuclideId"] = label[:-2]
+    nm["amass"] = ctx.real("amass_%s_%s" % (t, label), 1.0, 300.0)
+    for key, v in nm.items():
+        items[(label, kind + "Metadata", key)] = v
+
+    def vec(name, ng):
+        return arr([ctx.real("%s_%s_%s_%d" % (name, t, label, g), 0.0, 1e3) for g in range(ng)])
+
+    if kind in ("isotxs", "gamiso"):
+        part = "micros" if kind == "isotxs" else "gammaXS"
+        ng = ngn if kind == "isotxs" else ngg
+        col = getattr(n, part)
+        col.nGamma = vec("nGamma", ng)
+        col.total = vec("total", ng).reshape(ng, 1)
+        col.elasticScatter = sp((ng, ng), 1 + k)
+        col.elasticScatter1stOrder = sp((ng, ng), 3 + k)
+        if kind == "isotxs":
+            col.fission = vec("fission", ng)
+            col.neutronsPerFission = vec("nu", ng)
+            col.n2nScatter = sp((ng, ng), 5 + k)
+        # higher Legendre orders (P2, P3) of the scatter blocks
+        col.higherOrderScatter = {(2, "elastic"): sp((ng, ng), 7 + k), (3, "elastic"): sp((ng, ng), 9 + k)}
+        for key, v in col.__dict__.items():
+            if key == "higherOrderScatter":
+                for kk, vv in v.items():
+                    items[(label, part, ("higherOrderScatter", kk))] = vv
+            elif v is not None and key != "source":
+                items[(label, part, key)] = v
+    else:
+        n.neutronHeating = vec("neutronHeating", ngn)
+        n.neutronDamage = vec("neutronDamage", ngn)
+        n.gammaHeating = vec("gammaHeating", ngg)
+        n.isotropicProduction = sp((ngg, ngn), 2 + k)
+        n.linearAnisotropicProduction = sp((ngg, ngn), 4 + k)
+        n.nOrderProductionMatrix = {2: sp((ngg, ngn), 6 + k)}
+        for key in ("neutronHeating", "neutronDamage", "gammaHeating", "isotropicProduction",
+                    "linearAnisotropicProduction"):
+            items[(label, "nuclide", key)] = getattr(n, key)
+        items[(label, "nuclide", ("nOrderProductionMatrix", 2))] = n.nOrderProductionMatrix[2]
+
+
 class Source:
     """One single-kind library and the record of everything it holds: items[(label, part, name)] -> object."""
 
-    def __init__(self, ctx, idx, kind, labels, numGroups):
+    def __init__(self, ctx, idx, kind, labels, numGroups, ngn=NGN, ngg=NGG):
         self.kind, self.labels, self.tag = kind, list(labels), "%s%d" % (kind, idx)
         self.lib = lib = xsLibraries.IsotxsLibrary()
+        t = self.tag
+        # group structures: every boundary is an input of its own, so that two libraries agree on a structure only where
+        # the solver makes the boundaries equal (None = this kind of file has no such structure)
+        self.neutronBounds = self.gammaBounds = None
         if kind in ("isotxs", "pmatrx"):
-            lib.neutronEnergyUpperBounds = np.array([1.0e7, 1.0e3])
+            self.neutronBounds = [ctx.real("neutronBound_%s_%d" % (t, g), 1.0e-5, 2.0e7) for g in range(ngn)]
+            lib.neutronEnergyUpperBounds = arr(self.neutronBounds)
         if kind in ("gamiso", "pmatrx"):
-            lib.gammaEnergyUpperBounds = np.array([1.0e7, 1.0e5, 1.0e3])
+            self.gammaBounds = [ctx.real("gammaBound_%s_%d" % (t, g), 1.0e-5, 2.0e7) for g in range(ngg)]
+            lib.gammaEnergyUpperBounds = arr(self.gammaBounds)
         if kind == "isotxs":
-            lib.neutronVelocity = np.array([2.0e9, 1.0e7])
+            lib.neutronVelocity = np.array(VELOCITY[:ngn])
         if kind == "pmatrx":
-            lib.neutronDoseConversionFactors = np.array([1.5, 2.5])
-            lib.gammaDoseConversionFactors = np.array([0.5, 0.25, 0.125])
+            lib.neutronDoseConversionFactors = np.array([1.5, 2.5, 3.5][:ngn])
+            lib.gammaDoseConversionFactors = np.array([0.5, 0.25, 0.125][:ngg])
         meta = getattr(lib, kind + "Metadata")
         meta["numGroups"] = numGroups
         meta["libraryLabel"] = "label of " + self.tag
         meta.fileNames = [self.tag]
         self.items = {}
-        t = self.tag
         for k, label in enumerate(labels):
             n = xsNuclides.XSNuclide(lib, label)
             lib[label] = n
-            nm = getattr(n, kind + "Metadata")
-            nm["nuclideId"] = label[:-2]
-            nm["amass"] = ctx.real("amass_%s_%s" % (t, label), 1.0, 300.0)
-            for key, v in nm.items():
-                self.items[(label, kind + "Metadata", key)] = v
-
-            def vec(name, ng):
-                return arr([ctx.real("%s_%s_%s_%d" % (name, t, label, g), 0.0, 1e3) for g in range(ng)])
-
-            if kind in ("isotxs", "gamiso"):
-                part = "micros" if kind == "isotxs" else "gammaXS"
-                ng = NGN if kind == "isotxs" else NGG
-                col = getattr(n, part)
-                col.nGamma = vec("nGamma", ng)
-                col.total = vec("total", ng).reshape(ng, 1)
-                col.elasticScatter = sp((ng, ng), 1 + k)
-                col.elasticScatter1stOrder = sp((ng, ng), 3 + k)
-                if kind == "isotxs":
-                    col.fission = vec("fission", ng)
-                    col.neutronsPerFission = vec("nu", ng)
-                    col.n2nScatter = sp((ng, ng), 5 + k)
-                # higher Legendre orders (P2, P3) of the scatter blocks
-                col.higherOrderScatter = {(2, "elastic"): sp((ng, ng), 7 + k), (3, "elastic"): sp((ng, ng), 9 + k)}
-                for key, v in col.__dict__.items():
-                    if key == "higherOrderScatter":
-                        for kk, vv in v.items():
-                            self.items[(label, part, ("higherOrderScatter", kk))] = vv
-                    elif v is not None and key != "source":
-                        self.items[(label, part, key)] = v
-            else:
-                n.neutronHeating = vec("neutronHeating", NGN)
-                n.neutronDamage = vec("neutronDamage", NGN)
-                n.gammaHeating = vec("gammaHeating", NGG)
-                n.isotropicProduction = sp((NGG, NGN), 2 + k)
-                n.linearAnisotropicProduction = sp((NGG, NGN), 4 + k)
-                n.nOrderProductionMatrix = {2: sp((NGG, NGN), 6 + k)}
-                for key in ("neutronHeating", "neutronDamage", "gammaHeating", "isotropicProduction",
-                            "linearAnisotropicProduction"):
-                    self.items[(label, "nuclide", key)] = getattr(n, key)
-                self.items[(label, "nuclide", ("nOrderProductionMatrix", 2))] = n.nOrderProductionMatrix[2]
+            fill_nuclide(ctx, n, kind, t, label, k, ngn, ngg, self.items)
         # contents of the arrays at build time (to see in-place changes)
         self.contents = {k: content(v) for k, v in self.items.items()}
 
@@ -108,27 +121,36 @@ def content(v):
     return [v]
 
 
+def nuclide_holdings(label, n, out):
+    for part in ("micros", "gammaXS"):
+        for key, v in getattr(n, part).__dict__.items():
+            if key == "higherOrderScatter":
+                for kk, vv in v.items():
+                    out[(label, part, ("higherOrderScatter", kk))] = vv
+            elif v is not None and key != "source":
+                out[(label, part, key)] = v
+    for kind in KINDS:
+        for key, v in getattr(n, kind + "Metadata").items():
+            out[(label, kind + "Metadata", key)] = v
+    for key in ("neutronHeating", "neutronDamage", "gammaHeating", "isotropicProduction",
+                "linearAnisotropicProduction"):
+        if getattr(n, key) is not None:
+            out[(label, "nuclide", key)] = getattr(n, key)
+    for kk, vv in n.nOrderProductionMatrix.items():
+        out[(label, "nuclide", ("nOrderProductionMatrix", kk))] = vv
+    return out
+
+
 def holdings(lib):
     """Everything a library holds, keyed like Source.items (None / empty entries left out)."""
     out = {}
     for label, n in lib.items():
-        for part in ("micros", "gammaXS"):
-            for key, v in getattr(n, part).__dict__.items():
-                if key == "higherOrderScatter":
-                    for kk, vv in v.items():
-                        out[(label, part, ("higherOrderScatter", kk))] = vv
-                elif v is not None and key != "source":
-                    out[(label, part, key)] = v
-        for kind in KINDS:
-            for key, v in getattr(n, kind + "Metadata").items():
-                out[(label, kind + "Metadata", key)] = v
-        for key in ("neutronHeating", "neutronDamage", "gammaHeating", "isotropicProduction",
-                    "linearAnisotropicProduction"):
-            if getattr(n, key) is not None:
-                out[(label, "nuclide", key)] = getattr(n, key)
-        for kk, vv in n.nOrderProductionMatrix.items():
-            out[(label, "nuclide", ("nOrderProductionMatrix", kk))] = vv
+        nuclide_holdings(label, n, out)
     return out
+
+
+LIB_PROPS = ("neutronEnergyUpperBounds", "gammaEnergyUpperBounds", "neutronVelocity",
+             "neutronDoseConversionFactors", "gammaDoseConversionFactors")
 
 
 def state(lib):
@@ -144,8 +166,7 @@ def state(lib):
         s[kind + "FileNames"] = list(getattr(m, "fileNames", []) or [])
     properties.unlockImmutableProperties(lib)
     try:
-        for p in ("neutronEnergyUpperBounds", "gammaEnergyUpperBounds", "neutronVelocity",
-                  "neutronDoseConversionFactors", "gammaDoseConversionFactors"):
+        for p in LIB_PROPS:
             v = getattr(lib, p)
             s[p] = None if v is None else list(v)
     finally:
@@ -153,7 +174,7 @@ def state(lib):
     return s
 
 
-def same_state(ctx, what, old, new):
+def same_state(ctx, what, old, new, skip=()):
     ctx.check("%s: same nuclide labels in the same order" % what, old["labels"] == new["labels"])
     ctx.check("%s: still owns its nuclides" % what, all(new["containers"]))
     ctx.check("%s: holds the same items" % what, sorted(map(str, old["objects"])) == sorted(map(str, new["objects"])))
@@ -162,7 +183,7 @@ def same_state(ctx, what, old, new):
         ctx.check("%s: %s unchanged" % (what, (k,)),
                   w is not None and len(v) == len(w) and all(x is y or bool_same(x, y) for x, y in zip(v, w)))
     for key in old:
-        if key not in ("labels", "objects", "contents", "containers"):
+        if key not in ("labels", "objects", "contents", "containers") and key not in skip:
             a, b = old[key], new[key]
             if isinstance(a, dict):
                 ok = sorted(a) == sorted(b) and all(a[x] is b[x] or bool_same(a[x], b[x]) for x in a)
@@ -171,7 +192,7 @@ def same_state(ctx, what, old, new):
             ctx.check("%s: %s unchanged" % (what, key), ok)
 
 
-# scenario -> list of (kind, labels)
+# scenario -> list of (kind, labels) or (kind, labels, neutron groups, gamma groups)
 SCENARIOS = {
     # the three kinds of data of the same nuclides arrive from three files
     "kinds": [("isotxs", ["U235AA", "FE56AA"]), ("gamiso", ["U235AA", "FE56AA"]), ("pmatrx", ["U235AA", "FE56AA"])],
@@ -181,6 +202,12 @@ SCENARIOS = {
     "overlap": [("isotxs", ["U235AA", "FE56AA"]), ("isotxs", ["NA23AA", "FE56AA"])],
     "overlap_first": [("isotxs", ["U235AA", "FE56AA"]), ("isotxs", ["FE56AA", "NA23AA"])],
     "overlap_gamma": [("isotxs", ["U235AA", "FE56AA"]), ("gamiso", ["FE56AA", "U235AA"]), ("gamiso", ["NA23AA", "U235AA"])],
+    # three files of one kind, one cross-section ID each: the structure of a LATER file meets a target that already
+    # holds the data (and the velocity) of the earlier ones
+    "three_ids": [("isotxs", ["U235AA"]), ("isotxs", ["U235AB"]), ("isotxs", ["U235AC"])],
+    # production data whose neutron (gamma) structure has another NUMBER of groups than the neutron (gamma) file
+    "neutron_count": [("isotxs", ["U235AA", "FE56AA"]), ("gamiso", ["U235AA"]), ("pmatrx", ["U235AA", "FE56AA"], 3, 3)],
+    "gamma_count": [("isotxs", ["U235AA"]), ("gamiso", ["U235AA", "FE56AA"]), ("pmatrx", ["U235AA", "FE56AA"], 2, 2)],
 }
 
 # IsotxsLibrary._mergeNuclides adopts the nuclides of the other library one by one and notices an overlapping label only
@@ -188,18 +215,53 @@ SCENARIOS = {
 # name the target as their container) when the AttributeError is raised.  Reproduction (plain Python) in the report.
 KNOWN_DEFECT_refused_merge_already_adopted_preceding_nuclides = False  # recorded in known_findings.jsonl
 
+# IsotxsLibrary._mergeProperties assigns the write-once properties one after the other (neutron dose factors, neutron
+# energies, neutron velocity, gamma energies, gamma dose factors); the first conflicting one raises, the ones before it
+# have been taken over already if the target did not have them: merging production (PMATRX-like) data whose GAMMA
+# structure conflicts into a target that holds gamma data only leaves the target with the neutron structure and dose
+# factors of the refused library.  With the flag True, in exactly that configuration (a structure conflict, and the
+# refused library brings library-level properties the target does not have yet) those properties of the target are
+# not compared; everything else of the target and the whole refused library still are.
+KNOWN_DEFECT_refused_merge_already_adopted_properties = True
 
-@harness("C10", bounds="2-3 single-kind libraries (ISOTXS-, GAMISO-, PMATRX-like; 2 neutron / 3 gamma groups; 2 nuclide "
-                       "labels each, scenarios enumerated: same labels from three kinds, two cross-section IDs, the same "
-                       "kind of data for one label twice) merged into an empty library in a solver-chosen order; "
-                       "symbolic: merge order, group count in each file's metadata (Int 1..3), atomic masses and all "
-                       "vector data (reals, as tokens); higher-order scatter blocks and production matrices concrete "
-                       "sparse matrices", stubs=STUBS, max_paths=400,
+# _XSLibrary._mergeNeutronEnergies takes "the first" neutron velocity with `if not hasattr(self, "_neutronVelocity")`,
+# but merging a library WITHOUT neutron velocity (GAMISO-, PMATRX-like) first stores None there, so the velocity of
+# every ISOTXS merged later is dropped: the result depends on the merge order.  With the flag True the velocity of the
+# result is not examined when a library without velocity was merged before the first ISOTXS-like one.
+KNOWN_DEFECT_neutron_velocity_lost_when_other_kinds_come_first = True
+
+# NuclideXSMetadata._mergeLibrarySpecificData: libraryLabel = self's or other's: the label of the result is that of the
+# file merged first, i.e. depends on the merge order.  With the flag True the label is only required to be one of the
+# sources' labels.
+KNOWN_DEFECT_library_label_depends_on_merge_order = True
+
+
+def differs(a, b):
+    """two group structures (lists of boundaries) are not the same structure"""
+    if len(a) != len(b):
+        return True
+    return OR(*[x != y for x, y in zip(a, b)])
+
+
+def same_items(got, want):
+    return got is not None and want is not None and len(got) == len(want) and \
+        all(x is y or bool_same(x, y) for x, y in zip(got, want))
+
+
+@harness("C10", bounds="2-3 single-kind libraries (ISOTXS-, GAMISO-, PMATRX-like; 2 neutron / 3 gamma groups, or 3 / 2 "
+                       "where the scenario says so; 1-2 nuclide labels each, scenarios enumerated: same labels from "
+                       "three kinds, two and three cross-section IDs, the same kind of data for one label twice, "
+                       "production data with another number of neutron / gamma groups) merged into an empty library "
+                       "in a solver-chosen order; symbolic: merge order, group count in each file's metadata (Int "
+                       "1..3), EVERY BOUNDARY of the neutron / gamma group structure of each library (reals, equal or "
+                       "not between libraries decided by the solver), atomic masses and all vector data (reals, as "
+                       "tokens); higher-order scatter blocks and production matrices concrete sparse matrices",
+         stubs=STUBS, max_paths=1500,
          instances={"quick": [dict(scenario=s) for s in SCENARIOS]})
 def library_merge_is_lossless_and_order_independent(ctx, scenario):
     spec = SCENARIOS[scenario]
     numGroups = [ctx.int("numGroups_%d" % i, 1, 3) for i in range(len(spec))]
-    srcs = [Source(ctx, i, kind, labels, numGroups[i]) for i, (kind, labels) in enumerate(spec)]
+    srcs = [Source(ctx, i, sp_[0], sp_[1], numGroups[i], *sp_[2:]) for i, sp_ in enumerate(spec)]
     order = ctx.choice("order", list(itertools.permutations(range(len(srcs)))))
     target = xsLibraries.IsotxsLibrary()
     merged = []
@@ -209,29 +271,44 @@ def library_merge_is_lossless_and_order_independent(ctx, scenario):
         try:
             target.merge(s.lib)
             refused = None
-        except (AttributeError, OSError) as e:
+        except (AttributeError, OSError, ImmutablePropertyError) as e:
             refused = e
+        # the group structures must agree with those the target has from the libraries merged before
+        structConflict = OR(*([differs(srcs[j].neutronBounds, s.neutronBounds) for j in merged
+                               if srcs[j].neutronBounds is not None and s.neutronBounds is not None] +
+                              [differs(srcs[j].gammaBounds, s.gammaBounds) for j in merged
+                               if srcs[j].gammaBounds is not None and s.gammaBounds is not None] + [False]))
         # the file metadata of the same kind must agree
         metaConflict = OR(*[numGroups[j] != numGroups[i] for j in merged if srcs[j].kind == s.kind]) \
             if any(srcs[j].kind == s.kind for j in merged) else False
         # the same kind of data for the same label from two sources
         dataConflict = any(srcs[j].kind == s.kind and set(srcs[j].labels) & set(s.labels) for j in merged)
-        expected = OR(metaConflict, dataConflict)
+        expected = OR(structConflict, metaConflict, dataConflict)
         if ctx.canary:                    # flip the claim on one rare input vector
             expected = IFF(expected, NOT(AND(*[n == 2 for n in numGroups])))
-        ctx.check("step %d: the merge is refused iff the group counts of two files of one kind differ or the same kind "
-                  "of data arrives twice for a nuclide label" % step, IFF(refused is not None, expected))
+        ctx.check("step %d: the merge is refused iff a neutron or gamma group structure differs (in the number of "
+                  "groups or in any boundary) from the one the target holds, the group counts of two files of one "
+                  "kind differ, or the same kind of data arrives twice for a nuclide label" % step,
+                  IFF(refused is not None, expected))
         if refused is not None:
-            ctx.check("step %d: file metadata conflicts are reported as OSError, data overlaps as AttributeError" % step,
+            ctx.check("step %d: group-structure conflicts are reported as ImmutablePropertyError, file metadata "
+                      "conflicts as OSError, data overlaps as AttributeError" % step,
+                      isinstance(refused, ImmutablePropertyError) if bool(structConflict) else
                       isinstance(refused, OSError) if bool(metaConflict) else isinstance(refused, AttributeError))
             first = [lab for lab in s.labels
                      if any(srcs[j].kind == s.kind and lab in srcs[j].labels for j in merged)]
-            adoptedSome = bool(first) and s.labels.index(first[0]) > 0 and not bool(metaConflict)
+            adoptedSome = bool(first) and s.labels.index(first[0]) > 0 and not bool(metaConflict) \
+                and not bool(structConflict)
+            # a structure conflict, and the refused library carries a library-level property the target lacks
+            newProps = [p for p in LIB_PROPS if beforeOther[p] is not None and before[p] is None]
+            adoptedProps = bool(structConflict) and bool(newProps)
             if not (KNOWN_DEFECT_refused_merge_already_adopted_preceding_nuclides and adoptedSome):
                 # the configuration of the recorded finding is named in the obligation, so that the entry in
                 # known_findings.jsonl covers exactly it (labels preceding the overlapping one in the other library)
-                tag = "refused after labels that precede the overlapping one" if adoptedSome else "refused"
-                same_state(ctx, "step %d %s: target" % (step, tag), before, state(target))
+                tag = "refused after labels that precede the overlapping one" if adoptedSome else \
+                    "refused for its group structure, bringing properties the target lacks" if adoptedProps else "refused"
+                skip = newProps if (KNOWN_DEFECT_refused_merge_already_adopted_properties and adoptedProps) else ()
+                same_state(ctx, "step %d %s: target" % (step, tag), before, state(target), skip)
                 same_state(ctx, "step %d %s: other library" % (step, tag), beforeOther, state(s.lib))
             return
         merged.append(i)
@@ -265,9 +342,132 @@ def library_merge_is_lossless_and_order_independent(ctx, scenario):
         ctx.check("%s file metadata: the common group count" % kind, m["numGroups"] == numGroups[srcs.index(mine[0])])
         ctx.check("%s file names: those of the merged files, in merge order" % kind,
                   list(m.fileNames) == [srcs[i].tag for i in order if srcs[i].kind == kind])
+        firstMerged = [srcs[i] for i in order if srcs[i].kind == kind][0]
+        if KNOWN_DEFECT_library_label_depends_on_merge_order and firstMerged is not mine[0]:
+            ctx.check("%s library label: that of one of the merged files" % kind,
+                      m["libraryLabel"] in ["label of " + s.tag for s in mine])
+        else:
+            ctx.check("%s library label: the same whatever the merge order (that of the first of the files in the "
+                      "order they are listed, which is what merging them in that order gives)" % kind,
+                      m["libraryLabel"] == "label of " + mine[0].tag)
     st = state(target)
-    ctx.check("neutron group structure as in the sources", st["neutronEnergyUpperBounds"] == [1.0e7, 1.0e3])
-    ctx.check("gamma group structure as in the sources",
-              st["gammaEnergyUpperBounds"] == ([1.0e7, 1.0e5, 1.0e3] if any(s.kind != "isotxs" for s in srcs) else None))
+    # every merged library agrees on the structures (else the merge was refused): the result holds that common one
+    for what, attr in (("neutron", "neutronBounds"), ("gamma", "gammaBounds")):
+        have = [getattr(srcs[i], attr) for i in order if getattr(srcs[i], attr) is not None]
+        ctx.check("%s group structure as in the sources (none if no source has one)" % what,
+                  same_items(st[what + "EnergyUpperBounds"], have[0]) if have else st[what + "EnergyUpperBounds"] is None)
+    withVelocity = [k for k, i in enumerate(order) if srcs[i].kind == "isotxs"]
+    if not withVelocity:
+        ctx.check("no neutron file: no neutron velocity", st["neutronVelocity"] is None)
+    elif not (KNOWN_DEFECT_neutron_velocity_lost_when_other_kinds_come_first and withVelocity[0] > 0):
+        ctx.check("neutron velocity of the neutron files, whatever the merge order%s" %
+                  (" (libraries without velocity merged first)" if withVelocity[0] > 0 else ""),
+                  same_items(st["neutronVelocity"], VELOCITY[:len(srcs[order[withVelocity[0]]].neutronBounds)]))
     for s in srcs:
         ctx.check("a merged source library is emptied (its data now belong to the result)", s.lib.__dict__ == {})
+
+
+# IsotxsLibrary.getScatterWeights caches the table it builds in self._scatterWeights; merge() does not reset the cache
+# (resetScatterWeights exists but nothing calls it), so a library that was asked for its scatter weights before further
+# data were merged into it keeps answering with the table of the nuclides it held then: the nuclides that arrived later
+# are missing, although the library holds their scatter matrices.  With the flag True the table is examined only when it
+# was not asked for between the merges.
+KNOWN_DEFECT_scatter_weights_cache_survives_merge = True
+
+
+@harness("C10", bounds="two ISOTXS-like libraries (2 groups, two cross-section IDs, 2 nuclide labels each) merged into an "
+                       "empty library; symbolic: merge order, which scatter matrix the weights are asked for (elastic, "
+                       "n2n) and whether the target was asked for them already between the two merges; group "
+                       "boundaries shared, vector data symbolic tokens", stubs=STUBS, max_paths=100)
+def scatter_weights_cover_every_merged_nuclide(ctx):
+    spec = [("isotxs", ["U235AA", "FE56AA"]), ("isotxs", ["U235AB", "NA23AB"])]
+    srcs = [Source(ctx, i, kind, labels, 2) for i, (kind, labels) in enumerate(spec)]
+    for x, y in zip(srcs[0].neutronBounds, srcs[1].neutronBounds):
+        ctx.assume(x == y)
+    order = ctx.choice("order", [(0, 1), (1, 0)])
+    key = ctx.choice("matrix", ["elasticScatter", "n2nScatter"])
+    askedBetween = bool(ctx.bool("askedBetween"))
+    matrices = {(lab, g): s.items[(lab, "micros", key)][:, g] for s in srcs for lab in s.labels for g in range(NGN)}
+    target = xsLibraries.IsotxsLibrary()
+    target.merge(srcs[order[0]].lib)
+    if askedBetween:
+        early = target.getScatterWeights(key)
+        ctx.check("before the second merge: one weight column per nuclide held and group",
+                  sorted(early) == sorted((lab, g) for lab in srcs[order[0]].labels for g in range(NGN)))
+    target.merge(srcs[order[1]].lib)
+    if KNOWN_DEFECT_scatter_weights_cache_survives_merge and askedBetween:
+        return
+    weights = target.getScatterWeights(key)
+    want = sorted(matrices)
+    if ctx.canary and key == "n2nScatter" and order == (1, 0) and not askedBetween:
+        want = want[:-1]
+    ctx.check("the merged library has one scatter-weight column per nuclide of the union and group", sorted(weights) == want)
+    for (lab, g), col in matrices.items():
+        w = weights.get((lab, g))
+        tot = col.sum()
+        ctx.check("weights of %s group %d: the source's scatter column, normalised" % (lab, g),
+                  w is not None and np.allclose(w.toarray(), (col / tot if tot != 0.0 else col).toarray()))
+
+
+# XSNuclide.merge replaces the three metadata objects and merges micros, gammaXS and the production data one after the
+# other; the kind of data both nuclides hold raises when its turn comes, and what was taken over before stays: merging
+# a nuclide with neutron AND gamma data into one that holds neutron data leaves the latter with the gamma metadata of
+# the refused one (gamma data into gamma data: with its neutron metadata and cross sections).  With the flag True the
+# receiving nuclide is not compared in exactly that configuration (refused, and the other nuclide holds a kind of
+# data the receiving one lacks); the other nuclide still is.
+KNOWN_DEFECT_refused_nuclide_merge_already_adopted_other_kinds = True
+
+SUBSETS = [c for r in range(4) for c in itertools.combinations(KINDS, r)]
+
+
+@harness("C10", bounds="XSNuclide.merge of two nuclides with the same label from two libraries; which kinds of data "
+                       "(neutron / gamma / production: every subset, also none) each of them holds is a symbolic choice "
+                       "(64 combinations); atomic masses in the metadata and all vector data symbolic reals (equal or "
+                       "not decided by the solver where the code compares them)", stubs=STUBS, max_paths=600)
+def nuclide_merge_refuses_overlap_and_keeps_operands(ctx):
+    label = "U235AA"
+    kindsOf = [ctx.choice("kinds_a", SUBSETS), ctx.choice("kinds_b", SUBSETS)]
+    nucs, items = [], [{}, {}]
+    for i, tag in enumerate("ab"):
+        lib = xsLibraries.IsotxsLibrary()
+        n = xsNuclides.XSNuclide(lib, label)
+        lib[label] = n
+        for kind in KINDS:       # (every input is declared on every path: the kinds it does not hold go to a dummy)
+            holder = n if kind in kindsOf[i] else xsNuclides.XSNuclide(xsLibraries.IsotxsLibrary(), label)
+            fill_nuclide(ctx, holder, kind, tag + "_" + kind, label, i, NGN, NGG, items[i] if holder is n else {})
+        nucs.append(n)
+    a, b = nucs
+    before = [nuclide_holdings(label, n, {}) for n in nucs]
+    beforeContent = [{k: content(v) for k, v in h.items()} for h in before]
+    try:
+        a.merge(b)
+        refused = None
+    except AttributeError as e:
+        refused = e
+    overlap = [k for k in KINDS if k in kindsOf[0] and k in kindsOf[1]]
+    expected = bool(overlap)
+    if ctx.canary and kindsOf[0] == ("gamiso",) and kindsOf[1] == ("isotxs", "pmatrx"):
+        expected = True
+    ctx.check("the merge is refused iff both nuclides hold the same kind of data", (refused is not None) == expected)
+    after = [nuclide_holdings(label, n, {}) for n in nucs]
+
+    def unchanged(i, who):
+        ctx.check("refused: %s holds the same items" % who, sorted(map(str, after[i])) == sorted(map(str, before[i])))
+        for k, v in before[i].items():
+            w = after[i].get(k)
+            ctx.check("refused: %s: %s unchanged" % (who, (k,)), w is not None and (w is v or bool_same(w, v)) and
+                      same_items(content(w), beforeContent[i][k]))
+
+    if refused is not None:
+        extra = [k for k in kindsOf[1] if k not in kindsOf[0]]
+        if not (KNOWN_DEFECT_refused_nuclide_merge_already_adopted_other_kinds and extra):
+            unchanged(0, "the receiving nuclide%s" % (" (the other one holds kinds of data it lacks)" if extra else ""))
+        unchanged(1, "the other nuclide")
+        return
+    want = dict(items[0])
+    want.update(items[1])
+    ctx.check("the receiving nuclide holds exactly the data items of both (nothing dropped, nothing invented)",
+              sorted(map(str, after[0])) == sorted(map(str, want)))
+    for k, v in want.items():
+        w = after[0].get(k)
+        ctx.check("%s is the source's datum" % (k,), w is not None and (w is v or bool_same(w, v)))
